@@ -12,7 +12,7 @@ import sys
 
 import gen_graph as G
 import ref_graph as R
-from vplib import Case, Check, Rng
+from vplib import Case, Check, MachineryError, Rng
 
 PID = "C03"
 IMPORTS = ["Outcome", "Formula", "FormulaFlocq", "Graph"]
@@ -110,7 +110,7 @@ def gen_cases(ck):
     cases = []
     for g in G.boundary_graphs():
         cases.append(make_case(g, "boundary"))
-    n_core, n_wide, n_chain = (700, 1500, 200) if quick else (8000, 20000, 2000)
+    n_core, n_wide, n_chain = (500, 1000, 150) if quick else (8000, 20000, 2000)
     for _ in range(n_core):
         cases.append(make_case(G.gen_graph(rng, kinds=G.CORE, float_ok=False), "core"))
     for _ in range(n_wide):
@@ -190,7 +190,11 @@ def main():
         replay(ck, binary)
     cases = gen_cases(ck)
     ck.phase("generate")
-    model = ck.run_model_terms(IMPORTS, [c.term for c in cases], per_eval=100)
+    try:
+        model = ck.run_model_terms(IMPORTS, [c.term for c in cases], per_eval=100)
+    except MachineryError as e:          # coqc killed on an overloaded machine: one more attempt
+        ck.notes.append("model evaluation retried after: %s" % str(e).splitlines()[0][:200])
+        model = ck.run_model_terms(IMPORTS, [c.term for c in cases], per_eval=100)
     ck.phase("model")
     keep = [i for i, c in enumerate(cases) if not has_alloc(model[i], c.meta)]
     ck.dist["excluded_absurd_register_length_or_cyclic_expression"] = len(cases) - len(keep)
